@@ -39,6 +39,10 @@ def run(ctx: Context) -> None:
     ctx.rule(c14.r4_checkpoint_on_every_exit, v, "R4")
     # across repeated calibrate() calls: session start/end must not reset calibration-wide scheduler state
     ctx.rule(c05.r2d_session_scope)
+    # the pickled scheduler must be rewritten by every checkpoint (its position advances every batch)
+    from ..persist import Plumbing
+    from . import c04
+    ctx.rule(c04.r2_tables, Plumbing(ctx.prog))
     ctx.rule(c10.run_product, ("C09",), False, c10.plans(2, 2), "bootstrap-once")
     ctx.rule(r1_round_robin)
     ctx.rule(r1_calibrate_pairing)
